@@ -9,6 +9,7 @@ EXTENDS ArrayTree, ArraySeq, Json
 CONSTANTS Sizes,      \* value sizes to insert (some above the inline limit)
           MaxElems,   \* bound on the number of elements
           EmitEdges, EmitOneIn,
+          EmitExact,  \* print only the transitions whose successor tree has a slab sitting EXACTLY on a threshold (see OnEdge)
           WithReads,  \* also explore Get and the rejected (out-of-range) requests
           AllowPop,   \* explore PopIterate
           GrowUntil,  \* simulation walks: only inserts / overwrites before this step ...
@@ -29,7 +30,13 @@ mvars == <<tree, seq, nextId, hist, res, ctree, cseq>>
 
 Elem(vsz) == [id |-> nextId, vsz |-> vsz]
 \* EmitOneIn > 1: print only a random sample of the explored transitions (the value of the conjunct is TRUE either way)
-Emit(h) == IF EmitEdges /\ (EmitOneIn <= 1 \/ RandomElement(1..EmitOneIn) = 1) THEN PrintT(ToJson(h)) ELSE TRUE
+\* a slab exactly on a threshold: a non-root slab of exactly the minimum or the maximum size, a root of exactly the maximum size.
+\* Comparisons that decide lending, borrowing, merging and splitting change their outcome exactly there ('>=' against '>').
+RECURSIVE OnEdge(_, _)
+OnEdge(n, isRoot) == \/ ~isRoot /\ Size(n) \in {MinT, MaxT}
+                     \/ isRoot /\ RootSize(n) = MaxT
+                     \/ n.k = "m" /\ \E i \in 1..Len(n.c) : OnEdge(n.c[i], FALSE)
+Emit(h) == IF EmitEdges /\ (~EmitExact \/ OnEdge(tree', TRUE)) /\ (EmitOneIn <= 1 \/ RandomElement(1..EmitOneIn) = 1) THEN PrintT(ToJson(h)) ELSE TRUE
 Step(o) == hist' = Append(hist, o) /\ Emit(hist')
 
 NoTree0 == [k |-> "none"]
